@@ -1227,7 +1227,7 @@ func c12SelectorLabelsConditional(c *Ctx, rule string) {
 func c12PureAnalysis(c *Ctx, rule string) {
 	pureClosure(c, rule, "query parsing and label analysis keep no package-level state", "DecodeExpr and LabelsSource",
 		"what pint concludes about one rule's query then depends on which queries were parsed before it — with a cache keyed by anything but the exact text, one rule is judged on another rule's syntax tree",
-		"internal/parser.DecodeExpr", "internal/parser/utils.LabelsSource")
+		"internal/parser.DecodeExpr", "internal/parser/utils.LabelsSource", "internal/parser.newPromQLExpr")
 }
 
 // pureClosure: nothing reachable from the named functions writes package-level state.
